@@ -165,13 +165,13 @@ func init() {
 	}
 }
 
-// enumShape returns configuration j of the exhaustive family of C05: 7 small shapes x all
+// enumShape returns configuration j of the exhaustive family of C05: 8 small shapes x all
 // 4^3 assignments of {unset, shared, contextual, non_shared} to (a, b, c).
 func enumShape(j int) *gen.Cfg {
 	scopes := []string{"", "shared", "contextual", "non_shared"}
 	// a fixed permutation of the family, so that any prefix samples all shapes and assignments
 	j = (j * 37) % EnumFamily
-	shape, as := j%7, j/7
+	shape, as := j%8, j/8
 	sc := []string{scopes[as%4], scopes[(as/4)%4], scopes[(as/16)%4]}
 	fx := `"` + gen.FxPath + `"`
 	node := func(name string, scope string, args ...gen.Arg) gen.Svc {
@@ -198,6 +198,13 @@ func enumShape(j int) *gen.Cfg {
 		b.Calls = []gen.Call{{Method: "WithA", Args: []gen.Arg{ref("c")}, Wither: true}}
 		c.Services = []gen.Svc{a, b, node("c", sc[2])}
 		c.Decorators = []gen.Dec{{Tag: "t", Fn: fx + ".Decorate", Args: []gen.Arg{ref("b")}}}
+	case 7: // a bare value with a typed getter, decorated by a decorator that takes b; c hangs off b
+		a := gen.Svc{Name: "a", Value: "&" + fx + ".Node{}", Scope: sc[0], Getter: "GetA", Type: "*" + fx + ".Node"}
+		yes := true
+		a.MustGetter = &yes
+		a.Tags = []gen.Tag{{Name: "t"}}
+		c.Services = []gen.Svc{a, node("b", sc[1], ref("c")), node("c", sc[2])}
+		c.Decorators = []gen.Dec{{Tag: "t", Fn: fx + ".Decorate", Args: []gen.Arg{ref("b")}}}
 	case 6: // chain whose end is a todo placeholder that declares a scope (verdict only)
 		c.Services = []gen.Svc{node("a", sc[0], ref("b")), node("b", sc[1], ref("c")), {Name: "c", Todo: true, Scope: sc[2]}}
 	case 4, 5: // two decorators on two tags: a carries only t1 (decorated with b); c sits behind the decorator of t0
@@ -218,14 +225,15 @@ func enumShape(j int) *gen.Cfg {
 }
 
 // EnumFamily is the size of the exhaustive C05 family: 7 shapes x 4^3 scope assignments.
-const EnumFamily = 7 * 64
+const EnumFamily = 8 * 64
 
 // enumCfg15 is the small configuration whose histories C15 enumerates exhaustively.
 func enumCfg15() *gen.Cfg {
 	fx := `"` + gen.FxPath + `"`
 	return &gen.Cfg{
 		Params: []gen.Param{
-			{Name: "p1", V: gen.Arg{Kind: "pattern", Chunks: []gen.Chunk{{Kind: "todo"}}}},
+			{Name: "p1", V: gen.Arg{Kind: "pattern", Chunks: []gen.Chunk{{Kind: "todo", HasDef: true, Def: "quota reached: 90% of %d (see %s)"}}}},
+			{Name: "p4", V: gen.Arg{Kind: "pattern", Chunks: []gen.Chunk{{Kind: "todo"}}}},
 			{Name: "p2", V: gen.Arg{Kind: "pattern", Chunks: []gen.Chunk{{Kind: "ref", S: "p1"}, {Kind: "lit", S: "-x"}}}},
 			{Name: "p3", V: gen.Arg{Kind: "int", I: 7}},
 		},
@@ -259,6 +267,12 @@ func GenBatch(t Target, prop string, seed uint64, n int, outdir string, nenum in
 		}
 		cfg.Meta.Pkg = &name
 		danglingFlag := false
+		if prop == "C05" && i >= n && (i-n)%3 == 1 && cfg.Services[0].Ctor != "" {
+			// every third member of the family also refers to an undefined service (sorting before
+			// all others) and is built with --ignore-missing-services: the scope verdict must not change
+			cfg.Services[0].Args = append(cfg.Services[0].Args, gen.Arg{Kind: "svc", S: "aaa.undefined"})
+			danglingFlag = true
+		}
 		if prop == "C05" && i < n && len(cfg.Services) > 0 && src.Chance("c05.dangling", 1, 4) {
 			// a reference to an undefined service, tolerated by --ignore-missing-services, must not
 			// change the scope verdict (such a configuration cannot be instantiated: verdict only)
